@@ -40,8 +40,19 @@ TEnd ==
                  [fen |-> ev.fen, plies |-> n, first |-> IF Len(g.B) = n THEN CHOOSE i \in 1..(n + 1) : i = n + 1 \/ ~(g.B[i].best = g.A[i].best /\ g.B[i].nodes = g.A[i].nodes /\ g.B[i].digest = g.A[i].digest /\ g.B[i].lines = g.A[i].lines) ELSE 0])
   /\ g' = Empty
 
+\* the same request through a fresh driver ("ref") and through one with a past before ucinewgame ("hist")
+TUSession ==
+  /\ l <= Len(Trace) /\ Trace[l].ev = "usession" /\ l' = l + 1
+  /\ g' = [g EXCEPT ![IF Trace[l].role = "ref" THEN "A" ELSE "C"] = Append(@, [lines |-> Trace[l].lines, best |-> Trace[l].best])]
+TUEnd ==
+  /\ l <= Len(Trace) /\ Trace[l].ev = "uend" /\ l' = l + 1
+  /\ LET ev == Trace[l] IN
+       Expect(Len(g.A) = 1 /\ Len(g.C) = 1 /\ g.A[1] = g.C[1], ev, "C08/same-request-different-answer",
+              [fen |-> ev.fen, request |-> ev.args, before |-> ev.msg, fresh |-> IF Len(g.A) = 1 THEN g.A[1].best ELSE "", withPast |-> IF Len(g.C) = 1 THEN g.C[1].best ELSE ""])
+  /\ g' = Empty
+
 TPanic == /\ l <= Len(Trace) /\ Trace[l].ev = "panic" /\ l' = l + 1 /\ MM(Trace[l], IF Trace[l].engine THEN "PANIC/engine" ELSE "INFRA/recorder-panic", [msg |-> Trace[l].msg]) /\ UNCHANGED g
 TInit == l = 1 /\ g = Empty
-TNext == TSearch \/ TEnd \/ TPanic
+TNext == TSearch \/ TEnd \/ TUSession \/ TUEnd \/ TPanic
 Done == PrintT("DONE " \o ToString(TLCGet("stats").diameter - 1) \o " " \o ToString(Len(Trace)))
 =============================================================================
